@@ -420,7 +420,7 @@ func runC08(c *rt.Ctx) {
 	})
 	c.Require("kinds-sweep", 1)
 
-	nTexts := c.Pick(600000, 8000000)
+	nTexts := c.Pick(600000, 30000000)
 	c.Parallel("texts", 0, func(w *rt.W) {
 		for i := 0; i < nTexts/w.NShards; i++ {
 			t := genSizeText(w.Rng)
@@ -456,7 +456,7 @@ func runC08(c *rt.Ctx) {
 		collisionHistories(c, texts, 300, 200, func(w *rt.W, t string) { c08Text(w, t) })
 	}
 
-	nBytes := c.Pick(200000, 5000000)
+	nBytes := c.Pick(200000, 20000000)
 	c.Parallel("bytes", 0, func(w *rt.W) {
 		if w.Shard == 0 {
 			edges := []uint64{0, 1, 126, 127, 128, 129, 254, 255, 256, 257, 32766, 32767, 32768, 65534, 65535, 65536, 1<<24 - 1, 1 << 24, 1<<24 + 1, 1<<24 + 2, 1<<25 + 2, 1<<25 + 4,
